@@ -11,6 +11,7 @@ import (
 	"fmt"
 	"strconv"
 	"strings"
+	"time"
 
 	"github.com/alecthomas/participle/v2/lexer"
 
@@ -402,9 +403,9 @@ func plan(c *hx.Ctx) *hx.Plan {
 			(&explorer{w: w, stream: js[i].stream, elide: js[i].elide}).run()
 		},
 		Describe: func(i int) string { return fmt.Sprintf("stream=%q elide=%q", js[i].stream, js[i].elide) },
-		Rule: "every token stream of length <= bound over {X,Y (ordinary), e,f (elidable)} x elision sets {ef,e,none}; per stream BFS to a FIXPOINT over Next, FastForward(c) for every c (model equality for cursors a PeekAny returns, invariants for others), Save/Load of 2 checkpoint slots; in every reachable state all of Peek, RawPeek, Cursor, RawCursor, PeekAny x 6 predicates and Range(i,j) for all i<=j are compared with the model. evaluations = (stream, elision set) pairs; distinct_nontrivial = distinct (stream, elision, reachable-state-count) triples; states/transitions = real-object states visited / operations executed",
-		Bounds: map[string]any{"max_stream_len": maxLen, "checkpoint_slots": 2, "predicates": len(preds), "search": "fixpoint (not depth bounded)"},
-		Assume: []string{"token identity is observed through pointer identity into the lexer's own token slice (Range)", "streams longer than the bound behave like shorter ones (small-scope hypothesis)"},
+		Rule:     "every token stream of length <= bound over {X,Y (ordinary), e,f (elidable)} x elision sets {ef,e,none}; per stream BFS to a FIXPOINT over Next, FastForward(c) for every c (model equality for cursors a PeekAny returns, invariants for others), Save/Load of 2 checkpoint slots; in every reachable state all of Peek, RawPeek, Cursor, RawCursor, PeekAny x 6 predicates and Range(i,j) for all i<=j are compared with the model. evaluations = (stream, elision set) pairs; distinct_nontrivial = distinct (stream, elision, reachable-state-count) triples; states/transitions = real-object states visited / operations executed",
+		Bounds:   map[string]any{"max_stream_len": maxLen, "checkpoint_slots": 2, "predicates": len(preds), "search": "fixpoint (not depth bounded)"},
+		Assume:   []string{"token identity is observed through pointer identity into the lexer's own token slice (Range)", "streams longer than the bound behave like shorter ones (small-scope hypothesis)"},
 	}
 }
 
@@ -431,5 +432,5 @@ func replay(c *hx.Ctx, key string) []hx.Violation {
 }
 
 func main() {
-	hx.Main(&hx.Spec{Engine: "peekx", Levels: map[string]string{"C12": "model_checking"}, Plan: plan, Replay: replay})
+	hx.Main(&hx.Spec{Engine: "peekx", JobTimeout: 30 * time.Second, Levels: map[string]string{"C12": "model_checking"}, Plan: plan, Replay: replay})
 }
